@@ -50,6 +50,19 @@ def make_message(kind_, key, src):
                 return m, False
         m.fields[0].raw_value = m.fields[0].value = -5     # no number field: a negative lookup / reserved value
         return m, False
+    if kind_ == "bad_lookup_name":
+        for f, fd in zip(m.fields, d.fields):
+            if fd.type == "LOOKUP" and fd.match is None:
+                f.raw_value = None
+                f.value = "no such entry"
+                return m, False
+        m.fields = m.fields[:-1]
+        return m, False
+    if kind_ == "no_encoder_field_type":
+        # a definition with a field type the generated encoders do not support (STRING_FIX): Product Information
+        d2 = canboat.db().by_key["126996/productInformation"]
+        m2 = gen.benign_message(d2)
+        return NMEA2000Message(PGN=d2.pgn, id=d2.id, fields=list(m2.fields), source=src, destination=255, priority=6), False
     if kind_ == "unknown_pgn":
         m.PGN = 99999
         m.id = "noSuchPgn"
@@ -62,7 +75,7 @@ def cases(draw, client):
     n = draw(st.integers(1, 4))
     msgs = []
     for i in range(n):
-        k = draw(st.sampled_from(["ok", "ok", "ok", "ok", "missing_field", "out_of_range", "unknown_pgn"]))
+        k = draw(st.sampled_from(["ok", "ok", "ok", "ok", "ok", "missing_field", "out_of_range", "unknown_pgn", "bad_lookup_name", "no_encoder_field_type"]))
         key = draw(st.sampled_from(FAST + FAST + SINGLE))
         msgs.append((k, key, i + 1))
     pauses = draw(st.lists(st.tuples(st.integers(1, 30), st.integers(1, 12)), min_size=0, max_size=6))
